@@ -433,12 +433,37 @@ def _merge(dst, e1, e2):
         dst[k] = e1.get(k, frozenset()) | e2.get(k, frozenset())
 
 
+def _out_parameters(f):
+    """parameters that are accumulators by construction: default None, replaced by a fresh container when None
+    (`x = {} if x is None else x` / `if x is None: x = {}`), and RETURNED - writing into a container the caller passed for
+    that purpose is the parameter's contract, not a mutation of an input"""
+    a = f.node.args
+    params = a.posonlyargs + a.args
+    defaults = [None] * (len(params) - len(a.defaults)) + list(a.defaults)
+    pairs = list(zip(params, defaults)) + list(zip(a.kwonlyargs, a.kw_defaults))
+    out = set()
+    for p_, d in pairs:
+        if not (isinstance(d, ast.Constant) and d.value is None):
+            continue
+        nm = p_.arg
+        fresh = any(isinstance(n, ast.Assign) and any(isinstance(t, ast.Name) and t.id == nm for t in n.targets) and
+                    any(isinstance(x, (ast.Dict, ast.List)) or (isinstance(x, ast.Call) and isinstance(x.func, ast.Name) and x.func.id in ("dict", "list")) for x in ast.walk(n.value))
+                    for n in ast.walk(f.node))
+        returned = any(isinstance(n, ast.Return) and n.value is not None and any(isinstance(x, ast.Name) and x.id == nm for x in ast.walk(n.value)) for n in ast.walk(f.node))
+        if fresh and returned:
+            out.add(nm)
+    return out
+
+
 def protected_params(f):
     out = []
     a = f.node.args
     allp = a.posonlyargs + a.args + a.kwonlyargs
+    outp = _out_parameters(f)
     for i, arg in enumerate(allp):
         if f.cls is not None and not f.is_static and i == 0:
+            continue
+        if arg.arg in outp:
             continue
         ann = ast.unparse(arg.annotation) if arg.annotation is not None else ""
         if any(k in ann for k in PROTECTED_ANN) or ann == "" and arg.arg in ("other", "value", "data", "circuit", "target", "graph", "stabilizer", "A", "R", "S", "m1", "m2", "c", "counts", "qubits", "measured_qubits", "result", "circuits"):
